@@ -379,6 +379,63 @@ func c09Run(r *core.Run) {
 		r.NotExhaustive("internal deadline")
 	}
 	c09Respecify(r)
+	c09Expressions(r)
+}
+
+// c09Exprs: constraint expressions of every syntactic class (a header value is eligible when the expression,
+// as a regular expression, matches anywhere in it): plain literals, case folding (flag and group), classes,
+// alternation, anchors, expressions that match the empty string, word boundaries, groups, escapes.
+var c09Exprs = []string{"v", "V", "vw", "(?i)v", "(?i)V", "(?i)vw", "(?i)^vw$", "(?i:v)w", "[Vv]", "[Vv]w", "[^v]", "v|w", "^(v|w)$", "v*", "^$", "^.$", "..", "(?i)[a-u]", `\bv\b`, `\Av\z`, "(v)(w)", `\x76`, `\Qv\E`, "(?i)", "v?w", "(?-i)v", "(?i)(?-i:v)w", "^v", "v$", `v\.w`, "(?i)v.w"}
+var c09ExprValues = []string{"v", "V", "w", "W", "vw", "VW", "Vw", "vW", "xvx", "xVx", "v w", "v.w", "V.W", "vxw", "", "x", "\x1fv", "vv", "wv"}
+
+// c09Expressions: every expression class x every header value on a route of each kind (both forms of the
+// optional ones), alone and above a catch-all that takes what the gated route must not.
+func c09Expressions(r *core.Run) {
+	prefixes := [][]c09Op{
+		{{Kind: "reg", Route: "/s", API: "Get"}},
+		{{Kind: "reg", Route: "/o/?t", API: "Get"}},
+		{{Kind: "reg", Route: "/d/{x}", API: "Get"}},
+		{{Kind: "reg", Route: "/e/?{x}", API: "Routes(GET,POST)"}, {Kind: "reg", Route: "/{m: **}", API: "Any"}},
+	}
+	var hdrs []map[string]string
+	hdrs = append(hdrs, map[string]string{}, map[string]string{"Y-K": "v"})
+	for _, v := range c09ExprValues {
+		hdrs = append(hdrs, map[string]string{"X-K": v})
+	}
+	r.Bounds["constraint_expressions"] = fmt.Sprintf("%d expressions x %d header values x %d registration prefixes", len(c09Exprs), len(hdrs), len(prefixes))
+	type job struct {
+		pre  []c09Op
+		expr string
+	}
+	var jobs []job
+	for _, pre := range prefixes {
+		for _, e := range c09Exprs {
+			jobs = append(jobs, job{pre, e})
+		}
+	}
+	r.Parallel(func(wk, nw int, l *core.Local) {
+		m := ref.NewMatcher()
+		for ji := wk; ji < len(jobs); ji += nw {
+			if r.Expired() {
+				return
+			}
+			j := jobs[ji]
+			hist := append(append([]c09Op{}, j.pre...), c09Op{Kind: "headers", Target: 0, Pairs: []string{"X-K", j.expr}})
+			w, ok := c09Apply(hist)
+			if !ok {
+				l.Violate("expression-refused", fmt.Sprintf("Headers(\"X-K\", %q) refused although the expression is a valid regular expression", j.expr), c09Case{Ops: hist})
+				continue
+			}
+			l.States++
+			l.Transitions++
+			l.Traces++
+			l.Extra["constraint_expression_tables"]++
+			c09ProbeH(m, w, hist, l, hdrs)
+		}
+	})
+	if r.Expired() {
+		r.NotExhaustive("internal deadline (constraint expressions)")
+	}
 }
 
 // c09Prefixes are the registrations under the re-specification histories: one route, and two routes that
